@@ -14,7 +14,7 @@ from . import run as runmod
 from .minimise import minimise
 
 VERIF = os.path.dirname(os.path.dirname(os.path.dirname(os.path.abspath(__file__))))
-EVIDENCE = os.path.join(VERIF, 'evidence')
+EVIDENCE = os.environ.get('VERIF_EVIDENCE_DIR') or os.path.join(VERIF, 'evidence')
 REPLAYS = os.path.join(VERIF, 'replays')
 KNOWN = os.path.join(VERIF, 'known_findings.json')
 
@@ -43,10 +43,10 @@ def match_known(known, vclass, detail):
     return None
 
 
-def _worker(indices):
-    faulthandler.enable()
+def _run_chunk(indices):
     out = []
     prop = _PROP
+    seeds = []
     for i in indices:
         seed = derive_seed(_BATCH_SEED, prop.ID, i)
         r = runmod.execute(prop, seed, _TIER, index=i)
@@ -54,35 +54,96 @@ def _worker(indices):
             r.tape = None if (i % 997) else r.tape
             if i >= 3:
                 r.scenario = None
+        else:
+            r.extra = list(seeds)          # the runs that preceded it in this process
+        seeds.append(seed)
         out.append(r)
+    return out
+
+
+def _worker(indices):
+    """One chunk = one forked child, so that the process state a run can see is
+    exactly the earlier runs of its chunk (recorded as the replay prefix)."""
+    import pickle
+    faulthandler.enable()
+    r, w = os.pipe()
+    pid = os.fork()
+    if pid == 0:
+        code = 0
+        try:
+            os.close(r)
+            data = pickle.dumps(_run_chunk(indices))
+            off = 0
+            while off < len(data):
+                off += os.write(w, data[off:off + 65536])
+        except BaseException:      # noqa
+            import traceback
+            traceback.print_exc()
+            code = 3
+        finally:
+            os._exit(code)
+    os.close(w)
+    chunks = []
+    while True:
+        b = os.read(r, 1 << 20)
+        if not b:
+            break
+        chunks.append(b)
+    os.close(r)
+    _, status = os.waitpid(pid, 0)
+    if chunks and not os.WIFSIGNALED(status) and os.WEXITSTATUS(status) == 0:
+        return pickle.loads(b''.join(chunks))
+    # the chunk died: find the run that kills the interpreter
+    out = []
+    prop = _PROP
+    seeds = []
+    for i in indices:
+        seed = derive_seed(_BATCH_SEED, prop.ID, i)
+        res = runmod.execute_isolated(prop, [], seed, _TIER)
+        res.index = i
+        if res.status == 'violation' and res.vclass == 'interpreter_crash':
+            # recover the tape by re-drawing it is not possible after a crash: replay by seed
+            res.tape = {'__seed__': [seed]}
+        if res.status in ('ok', 'skip'):
+            res.tape = None
+            res.scenario = None
+        else:
+            res.extra = []
+        out.append(res)
+    if not any(x.status == 'violation' for x in out):
+        out[0].status, out[0].vclass = 'harness_error', 'chunk_crash'
+        out[0].detail = 'worker chunk %s died (status %s) but no single run reproduces it' % (indices[:3], status)
     return out
 
 
 def _minimise_and_write(prop, r, tier):
     os.makedirs(REPLAYS, exist_ok=True)
     t0 = time.time()
-    if r.vclass == 'no_progress':       # every re-execution costs the full CPU budget: do not minimise
+    prefix = list(r.extra or [])
+    if r.vclass in ('no_progress', 'interpreter_crash'):   # re-executions are expensive / uninformative: do not minimise
         tape, last, n = None, None, 0
     else:
-        tape, last, n = minimise(prop, r.tape, r.vclass, tier)
+        tape, prefix2, last, n = minimise(prop, r.tape, r.vclass, tier, prefix=prefix)
+        if last is not None:
+            prefix = prefix2
     reproduced = last is not None
     if not reproduced:
         tape, last = r.tape, r
-    # verify the minimised tape twice (determinism of the failing run)
-    if r.vclass == 'no_progress':
+    if r.vclass in ('no_progress', 'interpreter_crash'):
         stable = None
     else:
-        chk = runmod.execute(prop, 0, tier, replay=tape, wall_limit=60)
+        chk = runmod.execute_isolated(prop, prefix, 0, tier, replay=tape, wall_limit=60)
         stable = chk.status == 'violation' and chk.vclass == r.vclass and chk.digest == last.digest
     path = os.path.join(REPLAYS, '%s-%d.json' % (prop.ID, r.seed))
     with open(path, 'w') as f:
         json.dump({
             'property': prop.ID, 'tier': tier, 'seed': r.seed, 'run_index': r.index,
-            'tape': tape, 'scenario': last.scenario,
+            'tape': tape, 'prefix_seeds': prefix, 'scenario': last.scenario,
             'violation': {'class': last.vclass, 'detail': last.detail},
             'event_log_digest': last.digest,
-            'original': {'class': r.vclass, 'detail': r.detail, 'tape_len': sum(len(v) for v in r.tape.values())},
-            'minimised': {'executions': n, 'tape_len': sum(len(v) for v in tape.values()),
+            'original': {'class': r.vclass, 'detail': r.detail, 'tape_len': sum(len(v) for v in (r.tape or {}).values()),
+                         'prefix_len': len(r.extra or [])},
+            'minimised': {'executions': n, 'tape_len': sum(len(v) for v in (tape or {}).values()), 'prefix_len': len(prefix),
                           'reproduced': reproduced, 'replay_stable': stable, 'wall_s': round(time.time() - t0, 2)},
             'staged_source_digest': _stage_digest(),
         }, f, indent=1, default=str)
@@ -266,7 +327,12 @@ def replay(path):
     prop = load_prop(rec['property'])
     if hasattr(prop, 'setup'):
         prop.setup()
-    r = runmod.execute(prop, 0, rec.get('tier', 'quick'), replay=rec['tape'], keep_events=True)
+    tape = rec['tape']
+    seed = 0
+    if tape and '__seed__' in tape:         # crash replays are by seed (the tape could not be recovered)
+        seed, tape = tape['__seed__'][0], None
+    r = runmod.execute_isolated(prop, rec.get('prefix_seeds') or [], seed, rec.get('tier', 'quick'), replay=tape,
+                                keep_events=True)
     print('replay status=%s class=%s digest=%s (recorded class=%s digest=%s)' %
           (r.status, r.vclass, r.digest, rec['violation']['class'], rec.get('event_log_digest')))
     print('detail:', r.detail)
